@@ -305,6 +305,36 @@ theorem C04_init_no_panic (d : Bytes) (h : unpack d = .ok ()) (t : Bytes) (h8 : 
         obtain ⟨d2, hw⟩ := writeAt_fits d1 lo v (by omega)
         simp only [hw]; simp
 
+/-- A length that does not fit the 4-byte length field is never allocated, whatever the buffer (in
+    particular however much room it has): the result is not a success, and by `C04_alloc_atomic` a
+    reported error leaves the bytes untouched. -/
+theorem C04_unrepresentable_length (d t : Bytes) (len : Nat) (allowRep : Bool) (h : 2 ^ 32 ≤ len) :
+    (alloc d t len allowRep).2.isOk = false ∧
+    ((alloc d t len allowRep).2.isErr = true → (alloc d t len allowRep).1 = d) := by
+  refine ⟨?_, C04_alloc_atomic d t len allowRep⟩
+  have hl : ∀ x, lengthFromUsize len ≠ .ok x := by
+    intro x; unfold lengthFromUsize
+    have e : (2:Nat) ^ (8 * LW) = 2 ^ 32 := by decide
+    rw [e, if_neg (by omega)]; simp
+  unfold alloc
+  cases h1 : getIndices d t true (if allowRep then none else some 0) with
+  | panic => rfl
+  | err e => rfl
+  | ok ix =>
+    simp only
+    cases h2 : slice d ix.typeStart ix.lengthStart with
+    | panic => rfl
+    | err e => rfl
+    | ok cur =>
+      simp only
+      by_cases hc : cur = uninit
+      · rw [if_pos hc]
+        cases h3 : lengthFromUsize len with
+        | panic => rfl
+        | err e => rfl
+        | ok nl => exact absurd h3 (hl nl)
+      · rw [if_neg hc]; rfl
+
 /-! non-vacuity: the hypotheses of the theorems above are met by concrete non-trivial buffers -/
 example : (alloc (zeros 20) [1,1,1,1,1,1,1,1] 9 false).2.isErr = true ∧ unpack (zeros 20) = .ok () := by decide
 example : (realloc (Tlv.encS ⟨[⟨[1,1,1,1,1,1,1,1], [7, 8]⟩, ⟨[1,1,1,1,1,1,1,2], [9]⟩], 3⟩) [1,1,1,1,1,1,1,1] 6 0).2.isErr = true := by decide
